@@ -37,11 +37,14 @@ var boundsTabled = map[string]string{
 }
 
 type lenFacts struct {
-	min map[string]int     // access path -> proven lower bound of len
-	eq  map[[2]string]bool // pairs of access paths with equal len
+	min   map[string]int     // access path -> proven lower bound of len
+	eq    map[[2]string]bool // pairs of access paths with equal len
+	slack map[[2]string]int  // (index variable, access path) -> c+1 where i + c < len(path) is proven
 }
 
-func newFacts() *lenFacts { return &lenFacts{min: map[string]int{}, eq: map[[2]string]bool{}} }
+func newFacts() *lenFacts {
+	return &lenFacts{min: map[string]int{}, eq: map[[2]string]bool{}, slack: map[[2]string]int{}}
+}
 
 func (f *lenFacts) clone() *lenFacts {
 	g := newFacts()
@@ -51,7 +54,20 @@ func (f *lenFacts) clone() *lenFacts {
 	for k := range f.eq {
 		g.eq[k] = true
 	}
+	for k, v := range f.slack {
+		g.slack[k] = v
+	}
 	return g
+}
+
+// addSlack records i + c < len(p).
+func (f *lenFacts) addSlack(i, p string, c int) {
+	if i == "" || p == "" || c < 0 {
+		return
+	}
+	if c+1 > f.slack[[2]string{i, p}] {
+		f.slack[[2]string{i, p}] = c + 1
+	}
 }
 
 func (f *lenFacts) addMin(p string, n int) {
@@ -78,6 +94,11 @@ func (f *lenFacts) hasEq(a, b string) bool {
 }
 
 func (f *lenFacts) union(g *lenFacts) {
+	for k, v := range g.slack {
+		if v > f.slack[k] {
+			f.slack[k] = v
+		}
+	}
 	for k, v := range g.min {
 		f.addMin(k, v)
 	}
@@ -107,12 +128,27 @@ func meet(a, b *lenFacts) *lenFacts {
 			r.eq[k] = true
 		}
 	}
+	for k, v := range a.slack {
+		if w, ok := b.slack[k]; ok {
+			if w < v {
+				v = w
+			}
+			if v > 0 {
+				r.slack[k] = v
+			}
+		}
+	}
 	return r
 }
 
 func (f *lenFacts) equal(g *lenFacts) bool {
-	if len(f.min) != len(g.min) || len(f.eq) != len(g.eq) {
+	if len(f.min) != len(g.min) || len(f.eq) != len(g.eq) || len(f.slack) != len(g.slack) {
 		return false
+	}
+	for k, v := range f.slack {
+		if g.slack[k] != v {
+			return false
+		}
 	}
 	for k, v := range f.min {
 		if g.min[k] != v {
@@ -136,6 +172,11 @@ func (f *lenFacts) kill(root string, appendOnly bool) {
 	for k := range f.eq {
 		if pathHasRoot(k[0], root) || pathHasRoot(k[1], root) {
 			delete(f.eq, k)
+		}
+	}
+	for k := range f.slack {
+		if pathHasRoot(k[0], root) || (!appendOnly && pathHasRoot(k[1], root)) {
+			delete(f.slack, k)
 		}
 	}
 }
@@ -199,6 +240,46 @@ func accessPath(info *types.Info, e ast.Expr) string {
 		return b + "[" + i + "]"
 	}
 	return ""
+}
+
+// varPlusConst: e is i or i + c (i a variable): returns its access path and c.
+func varPlusConst(info *types.Info, e ast.Expr) (string, int, bool) {
+	e = ast.Unparen(e)
+	if be, ok := e.(*ast.BinaryExpr); ok && be.Op == token.ADD {
+		if c, ok := intConst(info, be.Y); ok {
+			if _, isC := intConst(info, be.X); !isC {
+				if p := accessPath(info, be.X); p != "" {
+					return p, c, true
+				}
+			}
+		}
+		return "", 0, false
+	}
+	if _, isC := intConst(info, e); isC {
+		return "", 0, false
+	}
+	if id, ok := e.(*ast.Ident); ok {
+		if p := accessPath(info, id); p != "" {
+			return p, 0, true
+		}
+	}
+	return "", 0, false
+}
+
+// lenMinusConst: e is len(P) or len(P) - c.
+func lenMinusConst(info *types.Info, e ast.Expr) (string, int, bool) {
+	e = ast.Unparen(e)
+	if p, ok := lenArg(info, e); ok {
+		return p, 0, true
+	}
+	if be, ok := e.(*ast.BinaryExpr); ok && be.Op == token.SUB {
+		if p, ok := lenArg(info, be.X); ok {
+			if c, ok := intConst(info, be.Y); ok {
+				return p, c, true
+			}
+		}
+	}
+	return "", 0, false
 }
 
 func isBytesBuffer(t types.Type) bool {
@@ -274,6 +355,21 @@ func condFacts(info *types.Info, cond ast.Expr, truth bool, out *lenFacts) {
 						out.addEq(lp, rp)
 					}
 					return
+				}
+			}
+			// index-variable bounds: I < len(P) - c, I + c < len(P), I <= len(P) - c
+			if iv, c1, ok1 := varPlusConst(info, l); ok1 {
+				if lp, c2, ok2 := lenMinusConst(info, r); ok2 {
+					eff := op
+					if !truth {
+						eff = map[token.Token]token.Token{token.GTR: token.LEQ, token.GEQ: token.LSS, token.LSS: token.GEQ, token.LEQ: token.GTR, token.EQL: token.NEQ, token.NEQ: token.EQL}[op]
+					}
+					switch eff {
+					case token.LSS: // iv + c1 < len - c2  =>  iv + (c1+c2) < len
+						out.addSlack(iv, lp, c1+c2)
+					case token.LEQ: // iv + c1 <= len - c2 =>  iv + (c1+c2-1) < len
+						out.addSlack(iv, lp, c1+c2-1)
+					}
 				}
 			}
 			// normalise to len(P) op c
@@ -598,6 +694,15 @@ func boundsOneBody(c *core.Ctx, bf *boundsFn, all []*boundsFn, tabledSeen map[st
 					need, scope = k, fmt.Sprintf("len(x)-%d", k)
 				}
 			}
+		} else if iv, k, ok := varPlusConst(info, ie.Index); ok && k >= 1 {
+			// x[i+k]: needs i + k < len(x)
+			inScope++
+			if xp != "" && facts.slack[[2]string{iv, xp}] >= k+1 {
+				c.Ob(construct, ie.Pos(), true, fmt.Sprintf("index variable plus %d: dominated by a guard proving i+%d < len", k, k))
+			} else {
+				c.Fail(construct, ie.Pos(), fmt.Sprintf("index is a variable plus %d but no dominating guard proves i+%d < len on the same access path: out of range at the last element", k, k))
+			}
+			continue
 		} else if id, ok := ast.Unparen(ie.Index).(*ast.Ident); ok {
 			if rs := rangeDefining(info, parent, ie, id); rs != nil {
 				yp := accessPath(info, rs.X)
